@@ -180,9 +180,15 @@ def c01_family(tier, n):
     for p1, p2 in [(0, 30), (30, 130)]:
         for order in ['side-last', 'side-first']:
             srcs = ['s1', 's2;main>other', 'side?;main>side']
-            out.append(scn(f'join2+ephsrc/{p1}/{p2}/{order}', [src(n, 's1', period=p1, required='snk'), src(n, 's2', period=p2, required='snk'),
-                                                                src(12 * n, 'side', period=10), sink('drain', ['side']),
-                                                                sink('snk', srcs if order == 'side-last' else srcs[2:] + srcs[:2])], quiet_ms=600))
+            fs = [src(n, 's1', period=p1, required='snk'), src(n, 's2', period=p2, required='snk'),
+                  src(12 * n, 'side', period=10), sink('drain', ['side']),
+                  sink('snk', srcs if order == 'side-last' else srcs[2:] + srcs[:2])]
+
+            for f in fs:      # the side source has been running for a while when the joined pipeline starts: its ids are far ahead
+                if f['name'] in ('s1', 's2', 'snk'):
+                    f['start_at'] = 300
+
+            out.append(scn(f'join2+ephsrc/{p1}/{p2}/{order}', fs, quiet_ms=600))
 
     # join of two independent chains, one with a skipping relay, the other slow (a timed-out recv must not forget an adopted id)
     for beh in ['skip1', 'skip02']:
